@@ -253,7 +253,12 @@ def extract_branch_results_with_internals(net, branch_results, table_name,
             sections_row_order = np.empty_like(sections)
             sections_row_order[placement_table] = sections
             last_section_row_order = (np.cumsum(sections_row_order) - 1).astype(int)
-            indices_last_section = last_section_row_order[placement_table][connected_ind]
+            first_section_row_order = last_section_row_order - sections_row_order.astype(int) + 1
+            last_section = last_section_row_order[placement_table]
+            first_section = first_section_row_order[placement_table]
+            # with reverse flow the fluid leaves the element through its first section
+            switched = branch_pit[f:t, FROM_NODE_T_SWITCHED][last_section].astype(np.bool_)
+            indices_last_section = np.where(switched, first_section, last_section)[connected_ind]
             # hint: idx_pit[placement_table] should result in the indices as ordered in the table
             pt = placement_table[connected_ind]
 
